@@ -166,6 +166,19 @@ pub fn reference_prove(drv: &mut Driver, inst: &rrun::Inst, rng: &mut (impl RngC
 /// decomposition, offsets) is done with `arith_promises` instead. With other arithmetic promises than the statement's
 /// the result is a proof of the wrong relation, which every verifier must refuse.
 pub fn reference_prove_with(drv: &mut Driver, inst: &rrun::Inst, arith_promises: Option<&[u64]>, rng: &mut (impl RngCore + rand_core::CryptoRng)) -> Option<Vec<u8>> {
+    reference_prove_lie(drv, inst, &Lie { promises: arith_promises.map(|p| p.to_vec()), values: None, blindings: None }, rng)
+}
+
+/// what a lying prover computes with, where it differs from what the statement (and hence the transcript) says
+#[derive(Default, Clone)]
+pub struct Lie {
+    pub promises: Option<Vec<u64>>,
+    pub values: Option<Vec<u64>>,
+    pub blindings: Option<Vec<Vec<Scalar>>>,
+}
+
+pub fn reference_prove_lie(drv: &mut Driver, inst: &rrun::Inst, lie: &Lie, rng: &mut (impl RngCore + rand_core::CryptoRng)) -> Option<Vec<u8>> {
+    let arith_promises = lie.promises.as_deref();
     let nn = inst.n * inst.m;
     let kappa = nn.ilog2() as usize;
     let t = inst.t;
@@ -206,9 +219,9 @@ pub fn reference_prove_with(drv: &mut Driver, inst: &rrun::Inst, arith_promises:
             inst.m,
             t,
             names.wire(nn, t),
-            nlist(&inst.values),
+            nlist(lie.values.as_ref().unwrap_or(&inst.values)),
             nlist(&arith_promises.map(|p| p.to_vec()).unwrap_or_else(|| inst.promises.iter().map(|p| p.unwrap_or(0)).collect::<Vec<_>>())),
-            hrows(&inst.blindings),
+            hrows(lie.blindings.as_ref().unwrap_or(&inst.blindings)),
             hlist(&alpha),
             hrows(&dl),
             hrows(&dr),
@@ -519,4 +532,60 @@ fn other_r(tag: u64) -> RistrettoPoint {
     let mut b = [9u8; 64];
     b[..8].copy_from_slice(&tag.to_le_bytes());
     RistrettoPoint::from_uniform_bytes(&b)
+}
+
+
+/// **A prover that lies about a commitment.** The transcript is that of the statement (all commitments absorbed as
+/// they are), the arithmetic is that of a witness for *other* commitments at one position (another value, another
+/// mask, or both). The proof satisfies the relation of the other statement at the statement's own challenges; a
+/// verifier that uses, in its equation, exactly the commitments it absorbed refuses it. Position by position.
+pub fn lying_about_commitments(opts: &Opts, out: &mut Out, prop: &str) {
+    let Some(mut drv) = Driver::start() else { return };
+    let mut rng = chacha(opts.seed, 7900);
+    let mut n_run = 0usize;
+    let configs: Vec<(usize, usize, usize)> = if opts.thorough { vec![(8, 1, 1), (4, 2, 2), (2, 4, 1), (8, 4, 3), (2, 8, 1)] } else { vec![(8, 1, 1), (4, 2, 2), (2, 4, 1)] };
+    for (n, m, t) in configs {
+        let inst = rrun::random_inst(n, m, m, t, 4, false, &mut rng);
+        let stmt = inst.statement();
+        for j in 0..m {
+            for what in ["value", "mask", "both"] {
+                let mut lie = Lie::default();
+                let mut vs = inst.values.clone();
+                let mut bs = inst.blindings.clone();
+                if what != "mask" {
+                    let lim = if n == 64 { u64::MAX } else { (1u64 << n) - 1 };
+                    vs[j] = if vs[j] < lim { vs[j] + 1 } else { vs[j] - 1 };
+                    // stay at or above the promise so that the liar's own relation is satisfiable
+                    if let Some(p) = inst.promises[j] {
+                        if vs[j] < p {
+                            vs[j] = p;
+                        }
+                    }
+                    if vs[j] == inst.values[j] {
+                        continue;
+                    }
+                }
+                if what != "value" {
+                    bs[j][t - 1] += Scalar::ONE;
+                }
+                lie.values = Some(vs.clone());
+                lie.blindings = Some(bs.clone());
+                let key = format!("lying prover about commitment {} ({}): {} computes with values {:?}", j, what, inst.describe(), vs);
+                let Some(pb) = reference_prove_lie(&mut drv, &inst, &lie, &mut rng).and_then(|b| rrun::Proof::from_bytes(&b).ok()) else {
+                    out.oracle(&format!("{}:reference-prover-ran", prop), false, &key, "the independent prover failed");
+                    continue;
+                };
+                n_run += 1;
+                for a in [VerifyAction::VerifyOnly, VerifyAction::RecoverAndVerify] {
+                    let r = rrun::verify_one(&inst, &stmt, &pb, a);
+                    out.oracle(&format!("{}:wrong-relation-refused", prop), r.is_err(), &format!("{} action={:?}", key, a), "a proof that satisfies the relation of OTHER commitments at this statement's challenges was accepted: the equation does not use the commitments that were absorbed");
+                }
+            }
+        }
+        // control: the truthful prover is accepted
+        if let Some(ph) = reference_prove(&mut drv, &inst, &mut rng).and_then(|b| rrun::Proof::from_bytes(&b).ok()) {
+            out.oracle(&format!("{}:reference-prover-ran", prop), rrun::verify_one(&inst, &stmt, &ph, VerifyAction::VerifyOnly).is_ok(), &inst.describe(), "control proof of the independent prover rejected");
+        }
+    }
+    out.stat("lying_commitment_proofs", n_run);
 }
